@@ -334,11 +334,14 @@ def external_rows(prog: Program) -> list[tuple[str, bool, str]]:
             loads.append(package)
             if mode == "fails":
                 raise Raised("ImportError")
-            if mode == "loads":
-                m = t.new("Module", other, filepath=t.PP(f"/s/{other}/__init__.py"))
-                for n in "xyz":
+            if mode in ("loads", "chain"):
+                m = t.new("Module", package, filepath=t.PP(f"/s/{package}/__init__.py"))
+                for n in "xyzw" if package == "ext2" else "xyz":
                     t.setm(m, n, t.new("Attribute", n, lineno=1, endlineno=1))
-                t.setm(coll, other, m)
+                if mode == "chain" and package == other:  # the loaded package itself imports from yet another one
+                    t.setm(m, "w", t.new("Alias", "w", "ext2.w", lineno=2, endlineno=2))
+                    m.attrs["imports"]["w"] = "ext2.w"
+                t.setm(coll, package, m)
                 return m
             return None
 
@@ -364,6 +367,11 @@ def external_rows(prog: Program) -> list[tuple[str, bool, str]]:
     loads, un, iters = scenario("loads", True, None)
     rows.append(("external|load succeeds", loads == ["ext"] and un == set() and iters == 2,
                  f"three imports from a loadable package: expected one load, nothing unresolved after the second pass; got loads {loads}, unresolved {sorted(un)}, iterations {iters}"))
+    loads, un, iters = scenario("chain", True, None)
+    rows.append(("external|loaded package imports from another one", loads == ["ext", "ext2"] and un == set() and iters == 3,
+                 f"the loaded package `ext` itself imports w from `ext2`: the second pass resolves the three imports and leaves ext.w (one name unresolved, as after the "
+                 f"first pass, but another one), the third resolves it: expected loads ['ext', 'ext2'], nothing unresolved, 3 iterations; got loads {loads}, "
+                 f"unresolved {sorted(un)}, iterations {iters}"))
     loads, un, iters = scenario("nothing", True, None)
     rows.append(("external|load adds nothing", bool(loads) and set(loads) == {"ext"} and un == every and iters == 2,
                  f"load() returns without providing the names: expected the loop to stop as soon as the unresolved set repeats (2 iterations); got iterations {iters}, unresolved {sorted(un)}"))
